@@ -24,6 +24,7 @@ import (
 	cmdtesting "k8s.io/kubectl/pkg/cmd/testing"
 
 	"helm.sh/helm/v4/pkg/action"
+	chart "helm.sh/helm/v4/pkg/chart/v2"
 	chartutil "helm.sh/helm/v4/pkg/chart/v2/util"
 	"helm.sh/helm/v4/pkg/kube"
 	release "helm.sh/helm/v4/pkg/release/v1"
@@ -204,6 +205,8 @@ type Op struct {
 	// Interject makes another actor create an object while the operation runs: right before the operation's
 	// AtKube-th cluster request is processed (only if no object exists at that path then).
 	Interject *Interject `json:"interject,omitempty"`
+	// ChartFn, when set, builds the chart object instead of Chart.Build() (properties with their own chart generators).
+	ChartFn func() *chart.Chart `json:"-"`
 	// Customize lets a property adjust the action object (e.g. set fields the Op does not model).
 	Customize func(a interface{}) `json:"-"`
 	// Gate is installed on the operation's context (schedulers).
@@ -216,6 +219,13 @@ type Interject struct {
 	Path   string                 `json:"path"`
 	Object map[string]interface{} `json:"object"`
 	Done   bool                   `json:"-"`
+}
+
+func (o *Op) buildChart() *chart.Chart {
+	if o.ChartFn != nil {
+		return o.ChartFn()
+	}
+	return o.Chart.Build()
 }
 
 // Describe renders the op for traces.
@@ -385,7 +395,7 @@ func (w *World) Run(op *Op) *Result {
 			if op.Customize != nil {
 				op.Customize(a)
 			}
-			res.Rel, res.Err = a.Run(op.Chart.Build(), vals)
+			res.Rel, res.Err = a.Run(op.buildChart(), vals)
 		case "upgrade":
 			a := action.NewUpgrade(cfg)
 			a.Namespace = "default"
@@ -402,7 +412,7 @@ func (w *World) Run(op *Op) *Result {
 			if op.Customize != nil {
 				op.Customize(a)
 			}
-			res.Rel, res.Err = a.Run(w.Name, op.Chart.Build(), vals)
+			res.Rel, res.Err = a.Run(w.Name, op.buildChart(), vals)
 		case "rollback":
 			a := action.NewRollback(cfg)
 			a.Version, a.CleanupOnFail, a.DisableHooks, a.Force, a.MaxHistory, a.DryRun = op.Target, op.CleanupOnFail, op.DisableHooks, op.Force, op.MaxHistory, op.DryRun
